@@ -130,6 +130,7 @@ class Ctx:
         os.makedirs(self.work, exist_ok=True)
         os.makedirs(os.path.join(self.work, "replay"), exist_ok=True)
         self.known, self.fixed = load_known(pid)
+        self.known_all = load_known(None)[0]     # every property's entries (engines serve several properties)
 
     # ---------------------------------------------------------------- build
     def build(self, cmd, race=False, tags="verif"):
@@ -165,6 +166,7 @@ class Ctx:
         e["VERIF_SEED"] = str(self.seed)
         e["VERIF_TIER"] = self.tier
         e["VERIF_WORK"] = self.work
+        e["VERIF_KNOWN_SIGS"] = "\n".join(k["sig"] for k in self.known_all)
         if env:
             e.update(env)
         try:
@@ -406,7 +408,7 @@ def load_known(pid):
             if not line or line.startswith("#"):
                 continue
             m = re.match(r"known: property=(\S+) sig=(\S+) (.*)", line)
-            if m and m.group(1) == pid:
+            if m and (pid is None or m.group(1) == pid):
                 known.append(dict(sig=m.group(2), desc=m.group(3)))
             m = re.match(r"fixed: property=(\S+) (\S+) (.*)", line)
             if m and m.group(1) == pid:
